@@ -9,7 +9,17 @@ def run(ctx):
     rec = summ["record"]
     r = ctx.tlc_trace("Trace_LLL", "Trace_LLL.cfg", trace, timeout=3000)
     ctx.trace_verdict(r, trace, "lll / lll_hnf call")
-    ctx.cov["conformance"].append({"direction": "impl->spec", **rec, "accepted": r["accepted"]})
+    ctx.cov["conformance"].append({"direction": "impl->spec (results)", **rec, "accepted": r["accepted"]})
+    # step level (hook H2): every state change of the LLL working data must be a step of LllSteps.tla with det / lambda
+    # equal to the Gram data of the current basis
+    strace = ctx.path("steps.ndjson")
+    summ2, _, _ = ctx.yv("c10", "steps", "--seed", ctx.seed, "--tier", ctx.tier, "--out", strace, timeout=3000)
+    r2 = ctx.tlc_trace("Trace_LllSteps", "Trace_LllSteps.cfg", strace, timeout=3000, tag="Trace_LllSteps")
+    ctx.trace_verdict(r2, strace, "LLL step", key_prefix="steps")
+    ctx.cov["conformance"].append({"direction": "impl->spec (steps, cfg(yui_verif) hook)", **summ2["steps"], "accepted": r2["accepted"]})
+    ctx.cov["evaluations"] += summ2["steps"]["events"]
+    if r2["accepted"]:
+        ctx.cov["traces_validated_against_impl"] += summ2["steps"]["lll_runs"]
     ctx.cov["evaluations"] += rec["events"]
     ctx.cov["distinct_nontrivial"] += rec["cases"] + rec["lll_inputs_with_independent_rows"]
     if r["accepted"]:
@@ -20,7 +30,7 @@ def run(ctx):
                        "constant, Gram data defined by determinants in the spec")
     ctx.assumptions += ["independence of the rows of an LLL input is decided with the library's own snf rank before the call (dependent inputs are not issued)",
                         "size-reducedness bound |mu|^2 <= 1/4 (Z), 1/2 (Z[i]), 3/4 (Z[w]): what nearest-element rounding guarantees",
-                        "the implementation's internal det/lambda bookkeeping is not observed step by step (no step hooks were added); only results are validated"]
+                        "step-level validation covers lll over Z (BigInt); lll_hnf and the quadratic rings are validated through their results only"]
     lines = open(trace).read().splitlines()
     ctx.add_samples([json.loads(l) for l in lines[1:2]])
 
